@@ -22,7 +22,6 @@ import (
 	"os/exec"
 	"path/filepath"
 	"runtime"
-	"runtime/pprof"
 	"sort"
 	"strconv"
 	"strings"
@@ -193,9 +192,10 @@ func seqCases(quick bool) []seqCase {
 		for _, base := range []string{"A1,B1,C1,D0", "A1"} {
 			emit(base, full, 1, compositions(1), r3)
 		}
-		emit("A1,B1,C1,D0", full, 2, compositions(2), r3)
+		emit("A1,B1,C1,D0", full, 2, [][]int{{1, 1}}, r3)
+		emit("A1,B1,C1,D0", corel, 2, [][]int{{2}}, r3)
 		emit("A1", mini, 2, compositions(2), r3)
-		emit("A1,B1,C1,D0", mini, 3, ends, r3)
+		emit("A1,B1,C1,D0", mini, 3, [][]int{{1, 1, 1}}, r3)
 		return out
 	}
 	for _, base := range []string{"A1,B1,C1,D0", "A1"} {
@@ -226,11 +226,6 @@ type workerOut struct {
 func workerMain() {
 	silence()
 	installCallback()
-	if pf := os.Getenv("C14_CPUPROF"); pf != "" {
-		f, _ := os.Create(pf)
-		pprof.StartCPUProfile(f)
-		defer pprof.StopCPUProfile()
-	}
 	parts := strings.Split(os.Getenv("C14_SHARD"), "/")
 	if len(parts) != 2 {
 		core.Fatal("worker: bad C14_SHARD")
@@ -356,7 +351,7 @@ func main() {
 		case "tally":
 			var k tallyCase
 			run.ReplayCase(&k)
-			r := newTallySet(k.Set).run(k)
+			r := newTallySet(k.Set, false).run(k)
 			if r.Viol {
 				run.Report(r.Sig, k, r.Detail)
 			}
@@ -395,13 +390,13 @@ func main() {
 	maxLen := run.Pick(4, 5)
 	viols := newViolSet()
 	tallyClasses := core.NewCounter()
-	samples := core.NewSampler(6, run.Seed)
+	samples := core.NewSampler(3, run.Seed)
 	tallyCases, tallyAccepted := 0, 0
 	perSet := map[string]int{}
 	var cmu sync.Mutex
 	base := 0
 	for _, name := range tallySetNames {
-		ts := newTallySet(name)
+		ts := newTallySet(name, run.Quick())
 		n := tallyCount(len(ts.Kinds), maxLen)
 		perSet[name] = n
 		acc := 0
@@ -434,12 +429,14 @@ func main() {
 		json.Unmarshal(f.Case, &k)
 		viols.add(base+f.Index, f.Sig, k, f.Detail, f.Count)
 	}
-	for _, q := range w.QuerySamples {
-		samples.Add(q)
+	seqSamples := core.NewSampler(3, run.Seed)
+	for _, s := range w.Samples {
+		seqSamples.Add(s)
 	}
-	for i, s := range w.Samples {
-		if i < 6 {
-			samples.Add(s)
+	allSamples := append(samples.List(), seqSamples.List()...)
+	for i, q := range w.QuerySamples {
+		if i == 0 {
+			allSamples = append(allSamples, q)
 		}
 	}
 	viols.report(run)
@@ -457,7 +454,7 @@ func main() {
 	}
 	tierRule := "thorough: EVERY sequence of length ≤2 over the full alphabet on both base sets in every split into blocks; EVERY sequence of length 3 over the core alphabet on {A1,B1,C1,D0} in every split into blocks (1|1|1, 1|2, 2|1, 3) and over the mini alphabet on {A1} split 1|1|1 and as one block"
 	if run.Quick() {
-		tierRule = "quick: EVERY sequence of length 1 over the full alphabet on both base sets, of length 2 over the full alphabet on {A1,B1,C1,D0} and over the mini alphabet on {A1} in both splits, and of length 3 over the mini alphabet on {A1,B1,C1,D0} split 1|1|1 and as one block"
+		tierRule = "quick: EVERY sequence of length 1 over the full alphabet on both base sets; of length 2 on {A1,B1,C1,D0} over the full alphabet in two blocks and over the core alphabet in one block, and on {A1} over the mini alphabet in both splits; of length 3 over the mini alphabet on {A1,B1,C1,D0} in three blocks"
 	}
 	distinct := tallyClasses.Len() + len(w.Classes)
 	run.Finish(core.Coverage{
@@ -466,7 +463,7 @@ func main() {
 		"traces_validated_against_impl": tallyCases + w.Cases + w.QueryCases,
 		"evaluations":                   tallyCases + w.Cases + w.QueryCases,
 		"distinct_nontrivial":           distinct,
-		"rule": "part 1 (tally): for each validator power vector, EVERY ordered list of length 0.." + strconv.Itoa(maxLen) + " over the entry kinds {Vi = valid signature of validator i over the request (one kind per validator, incl. the zero-power one), W0 = V0's key with V0's signature over a different message, N = genuine signature of a non-validator key, X01 = V0's key with V1's signature, PS/PL = V0's key one byte short/long, SS/SL = V0's signature halved/one byte long, E = empty entry}; duplicates are repeated letters; each list is put into an add_peer request and offered to the real AdminOp.ExecTX. " +
+		"rule": "part 1 (tally): for each validator power vector, EVERY ordered list of length 0.." + strconv.Itoa(maxLen) + " over the entry kinds (thorough: all; quick: all but X01) {Vi = valid signature of validator i over the request (one kind per validator, incl. the zero-power one), W0 = V0's key with V0's signature over a different message, N = genuine signature of a non-validator key, X01 = V0's key with V1's signature, PS/PL = V0's key one byte short/long, SS/SL = V0's signature halved/one byte long, E = empty entry}; duplicates are repeated letters; each list is put into an add_peer request and offered to the real AdminOp.ExecTX. " +
 			"part 2 (sequence): requests = {add, update, remove, unknown command, unknown type} × targets {new key K, validator B, signer A, zero-power D} × nonce {n−1,n,n+1} × {bound sender, other sender, second administrator Y} × signature lists {all validators, exactly 2/3, one validator ×3, foreign keys, other message} × channel {governance contract, precompile 0xfe called directly with forged sender bytes} + literal replays of earlier requests (" + strconv.Itoa(len(alphabet)) + " letters; core " + strconv.Itoa(nCore) + ", mini " + strconv.Itoa(nMini) + "); " + tierRule + "; every case runs on 2 lock-step replicas (consensus pattern Copy→ApplyBlock) plus late replicas (in-place ApplyBlock; thorough also Save/LoadState + fresh plugins between blocks). " +
 			"part 3 (query): the same requests sent as read-only contract queries (current state / state of an earlier height) to one of two replicas running the real EVMApp. " +
 			"distinct_nontrivial = distinct (set, verdict, entitled power, list shape) classes of part 1 + distinct (command, channel, model verdict, implementation verdict, recorded) and block-outcome classes of parts 2/3; states = distinct (validator set, account nonces) model states reached + tally classes",
@@ -482,7 +479,7 @@ func main() {
 		"request_alphabet":                         names,
 		"outcome_classes_part2":                    w.Classes,
 		"tally_outcome_classes":                    tallyClasses.Len(),
-		"samples":                                  samples.List(),
+		"samples":                                  allSamples,
 	}, []string{
 		"ed25519 / secp256k1 unforgeability: a validator 'really signed' iff the harness produced the signature with that key over exactly the request message",
 		"parts 2 and 3 run the real eth state transition, governance contract, AdminOP precompile, Angine.ExecAdminTx/BeginBlock/ExecBlock/EndBlock (plugins wired by the real InitPlugins), plugin.AdminOp and State.ApplyBlock; consensus, p2p, mempool and block validation are not running (BlockVerifier stub accepts every block; block validity is C02); in part 2 the application is a stand-in that calls core.ApplyTransaction per block transaction the way chain/app/evm does, in part 3 it is the real chain/app/evm.EVMApp",
